@@ -423,6 +423,7 @@ class Group(_Handle):
         if isinstance(name, bytes):
             name = name.decode("utf-8")
         if isinstance(obj, _np.ndarray) and _is_npc(obj.dtype) and obj.ndim == 1:
+            _npc_check_storable(obj.dtype)
             # h5py: group[name] = array creates a contiguous dataset (maxshape = shape)
             if name in self.node.links:
                 raise TypeError("Incompatible object already exists")        # h5py's answer
@@ -542,6 +543,7 @@ class Group(_Handle):
                 (dtype is None or _is_npc(dtype)):
             # a table made from a structured array: contiguous (fixed size) unless chunks / maxshape say otherwise
             dt = data.dtype if dtype is None else dtype
+            _npc_check_storable(dt)
             node = DNode(data.shape, dt, maxshape if maxshape is not None else tuple(data.shape), kw.get("compression"))
             node.np = _npc_in(data, dt, None)
             node.chunked = bool(chunks) or (maxshape is not None and tuple(maxshape) != tuple(data.shape))
@@ -1837,6 +1839,9 @@ def _script_tables(h5, path):
         obs.append(("deleted", "u" in f))
         obs.append(("object-column", ex(lambda: f.require_dataset("o", shape=(1,), dtype=_np.dtype(
             [("a", _np.int64), ("b", object)]), chunks=True, maxshape=(None,)).shape), "o" in f))
+        odt = _np.dtype([("a", _np.int64), ("b", object)])
+        obs.append(("object-column-from-array", ex(lambda: f.create_dataset("o2", data=_np.zeros(1, dtype=odt)).shape),
+                    ex(lambda: f.__setitem__("o3", _np.zeros(1, dtype=odt))), "o2" in f, "o3" in f))
         e = f.require_dataset("e", shape=(0,), dtype=dt, chunks=True, maxshape=(None,))
         obs.append(("empty", ex(lambda: e[:]), ex(lambda: e[0]), ex(lambda: e[[0]]), ex(lambda: e[[]]), len(e)))
         # attrs.modify keeps the stored type
